@@ -1,5 +1,6 @@
 import Xp.Proofs.C18Sound
 import Xp.Proofs.C18Rec
+import Xp.Proofs.C18Interf
 /-
 C18 property theorems: the RBAC manager grants nothing beyond what is allowed.
 Helper lemmas live in Xp/Proofs/C18*.lean.
@@ -83,6 +84,36 @@ theorem covers_needs_valid_url_rules_witness :
     let s : Sub := .url "/x" "get"
     granted A s = true ∧ covers A s = false ∧ ruleAllows (A.head!) (.nonres "get" "/x") = true := by decide
 
+/-- **A done context grants nothing.** Called with a context that is already done (deadline
+exceeded, cancelled), the validator – with or without an allow-list – answers "nothing is
+rejected" only when nothing at all was requested; otherwise it fails (and the reconciler
+writes no role). Without a done context it is `validate` / `expand`. -/
+theorem ctx_done_grants_nothing (allow requests : List PolicyRule) :
+    (validateCtx true allow requests = some [] → expand requests = []) ∧
+    (expandCtx true requests = some [] → expand requests = []) ∧
+    validateCtx false allow requests = some (validate allow requests) ∧
+    expandCtx false requests = some (expand requests) := by
+  have hx : ∀ rs, expandCtx true rs = some [] → expand rs = [] := by
+    intro rs h
+    unfold expandCtx at h
+    split at h
+    · cases h
+    · exact Option.some.inj h
+  have hs : ∀ rs l, expandCtx true rs = some l → expand rs = [] := by
+    intro rs l h
+    unfold expandCtx at h
+    split at h
+    · cases h
+    · rename_i hc
+      simpa using hc
+  refine ⟨?_, hx requests, by simp [validateCtx, expandCtx], by simp [expandCtx]⟩
+  intro h
+  unfold validateCtx at h
+  split at h
+  · rename_i hq
+    exact hs requests _ hq
+  · cases h
+
 /-! non-vacuity: the hypotheses are met by an ordinary allow list, and both verdicts occur -/
 example : let A : List PolicyRule := [⟨["get", "list"], ["g"], ["*"], [], []⟩, ⟨["get"], [], [], [], ["/metrics"]⟩]
     granted A (.res "g" "widgets" (some "x") "get") = true ∧ granted A (.res "g" "widgets" none "delete") = false ∧
@@ -139,7 +170,7 @@ groups in which such a resource is defined; a rule of the baseline table; or one
 revision's permission requests verbatim — and then every request was granted. -/
 theorem system_role_contents (cfg : Cfg) (plan : Plan) (s : Store) (name : String) (x : Role)
     (hw : Req.createRole x ∈ applied sem plan 0 (reconcile cfg name) s ∨
-          Req.updateRole x ∈ applied sem plan 0 (reconcile cfg name) s) :
+          ∃ rv, Req.updateRole x rv ∈ applied sem plan 0 (reconcile cfg name) s) :
     ∃ p, s.prs.find? (·.name = name) = some p ∧ rejectedIn cfg s p = some [] ∧
       x.ctrl = some p.uid ∧
       ∀ ρ ∈ x.rules,
@@ -147,7 +178,7 @@ theorem system_role_contents (cfg : Cfg) (plan : Plan) (s : Store) (name : Strin
         IsResourceRule (resourcesFor s p) provVerbsSystem ρ ∨ IsFinalizersRule (resourcesFor s p) ρ ∨
         ρ ∈ rulesSystemExtra ∨ ρ ∈ p.requests := by
   have hg : Grantable cfg s name x := by
-    rcases hw with hw | hw
+    rcases hw with hw | ⟨rv, hw⟩
     · exact writes_only_rendered cfg plan s name _ hw
     · exact writes_only_rendered cfg plan s name _ hw
   obtain ⟨p, hf, _, _, hrej, hx⟩ := hg
@@ -346,5 +377,141 @@ theorem binding_subjects_owned (uid : String) (ds : List Deployment) (sj : Subje
 example : ((applied sem Plan.allOk 0 (reconcile ⟨some "allow"⟩ "p") (exStore [⟨["get"], ["g"], ["r"], ["n"], []⟩])).filter Req.isWrite).length = 3 := by decide
 example : ((applied sem Plan.allOk 0 (reconcile ⟨some "allow"⟩ "p") (exStore [⟨["get", "list"], ["g"], ["r"], [], []⟩])).filter Req.isWrite).length = 0 := by decide
 example : rejectedIn ⟨some "allow"⟩ (exStore [⟨["get", "list"], ["g"], ["r"], [], []⟩]) (exPR [⟨["get", "list"], ["g"], ["r"], [], []⟩]) ≠ some [] := by decide
+
+/-! ### other writers, a lagging informer cache, error classes
+
+Everything above is the `World.plain` case (`world_plain_is_run`).  In a `World` other
+clients change the store right before ANY API call (`env`), every read is answered from
+whatever the informer cache serves at that moment (`view`: fresh, older, lacking objects),
+and any call may fail with any error class (`inj`: NotFound, AlreadyExists, Conflict, other).
+The statements are about the program's own applied calls `ownW` – each paired with the store
+it was answered from – and say that every write is justified by what the reads of THIS
+reconcile were served. -/
+
+/-- the plain world (no other writer, fresh cache, no injected class) is `run`/`applied` -/
+theorem world_plain_is_run (plan : Plan) (p : P) (s : Store) :
+    runW (World.plain plan) 0 p s = run sem plan 0 p s ∧
+    (ownW (World.plain plan) 0 p s).map (·.2) = applied sem plan 0 p s :=
+  ⟨runW_plain plan 0 p s, ownW_plain plan 0 p s⟩
+
+/-- **Every role write is justified by this reconcile's own reads, in every world.** Whatever
+other writers do between any two calls, whatever the cache serves and whichever calls fail
+with whichever class: a Create/Update of a role `x` by the provider-revision reconciler
+happens only after a `getPR` was served a live revision `p`, `x` is rendered for `p` from its
+own CRD references plus those of the members a `listPRs` of its family was served, and (with
+an allow-list configured) only after a read of the allow-list role was served a version under
+which no request of `p` is rejected; an Update moreover carries the resourceVersion of a
+served version of that role that `p` may control and that differed (no retry on a decision
+made for another version). No binding is ever written. -/
+theorem writes_justified_by_reads_interf (cfg : Cfg) (name : String) (w : World) (s : Store)
+    (pre : Hist) (x : Store × Req) (post : Hist)
+    (h : ownW w 0 (reconcile cfg name) s = pre ++ x :: post) :
+    RoleQ (Justified cfg name) pre x.2 := by
+  simpa using ownW_ownOnly _ w 0 _ s [] (reconcile_ownOnly cfg name) pre x post h
+
+/-- **If every allow-list version this reconcile is served leaves some request rejected – or
+none is served at all (NotFound, Forbidden, timeout, a cache miss …) – no role is created or
+updated**, in every world. -/
+theorem uncovered_means_no_role_interf (a : String) (name : String) (w : World) (s : Store)
+    (hrej : ∀ s1 p s3 ar, (s1, Req.getPR name) ∈ ownW w 0 (reconcile ⟨some a⟩ name) s →
+        s1.prs.find? (·.name = name) = some p →
+        (s3, Req.getRole a) ∈ ownW w 0 (reconcile ⟨some a⟩ name) s →
+        s3.roles.find? (·.name = a) = some ar → validate ar.rules p.requests ≠ []) :
+    ∀ x ∈ ownW w 0 (reconcile ⟨some a⟩ name) s, x.2.isWrite = false := by
+  intro x hx
+  obtain ⟨pre, post, e⟩ := List.append_of_mem hx
+  have hq := writes_justified_by_reads_interf ⟨some a⟩ name w s pre x post e
+  have sub : ∀ y ∈ pre, y ∈ ownW w 0 (reconcile ⟨some a⟩ name) s := by
+    intro y hy; rw [e]; exact List.mem_append_left _ hy
+  have no : ∀ r, Justified ⟨some a⟩ name pre r → False := by
+    intro r ⟨p, ⟨s1, h1, hf⟩, _, _, _, hv⟩
+    simp only [] at hv
+    obtain ⟨s3, ar, h3, hfa, hval⟩ := hv
+    exact hrej s1 p s3 ar (sub _ h1) hf (sub _ h3) hfa hval
+  obtain ⟨st, r⟩ := x
+  cases r <;> first
+    | rfl
+    | exact (no _ hq).elim
+    | exact (no _ hq.1).elim
+    | exact hq.elim
+
+/-- ... and without an allow-list a revision with any granular request never gets a role. -/
+theorem requests_without_allow_list_mean_no_role_interf (name : String) (w : World) (s : Store)
+    (hreq : ∀ s1 p, (s1, Req.getPR name) ∈ ownW w 0 (reconcile ⟨none⟩ name) s →
+        s1.prs.find? (·.name = name) = some p → expand p.requests ≠ []) :
+    ∀ x ∈ ownW w 0 (reconcile ⟨none⟩ name) s, x.2.isWrite = false := by
+  intro x hx
+  obtain ⟨pre, post, e⟩ := List.append_of_mem hx
+  have hq := writes_justified_by_reads_interf ⟨none⟩ name w s pre x post e
+  have sub : ∀ y ∈ pre, y ∈ ownW w 0 (reconcile ⟨none⟩ name) s := by
+    intro y hy; rw [e]; exact List.mem_append_left _ hy
+  have no : ∀ r, Justified ⟨none⟩ name pre r → False := by
+    intro r ⟨p, ⟨s1, h1, hf⟩, _, _, _, hv⟩
+    exact hreq s1 p (sub _ h1) hf hv
+  obtain ⟨st, r⟩ := x
+  cases r <;> first
+    | rfl
+    | exact (no _ hq).elim
+    | exact (no _ hq.1).elim
+    | exact hq.elim
+
+/-- **Role contents in every world.** Every rule of a role written in any world is a
+resource rule over CRDs referenced by the served revision `p` or by a member `m` of the served
+family list with another UID and the same (parsable) registry and organisation, the
+finalizers rule of those groups, the baseline table, or a request of `p` verbatim; the role
+is controlled by `p`. -/
+theorem role_contents_interf (cfg : Cfg) (name : String) (h : Hist) (x : Role) (hj : Justified cfg name h x) :
+    ∃ p ms, (∃ s1, (s1, Req.getPR name) ∈ h ∧ s1.prs.find? (·.name = name) = some p) ∧
+      (p.family = "" ∨ ∃ s2, (s2, Req.listPRs p.family) ∈ h ∧ ms = s2.prs.filter (·.family = p.family)) ∧
+      x.ctrl = some p.uid ∧
+      (∀ ρ ∈ x.rules,
+        IsResourceRule (resourcesOf p ms) provVerbsEdit ρ ∨ IsResourceRule (resourcesOf p ms) provVerbsView ρ ∨
+        IsResourceRule (resourcesOf p ms) provVerbsSystem ρ ∨ IsFinalizersRule (resourcesOf p ms) ρ ∨
+        ρ ∈ rulesSystemExtra ∨ ρ ∈ p.requests) ∧
+      (∀ res ∈ resourcesOf p ms, res ∈ definedResources p.refs ∨
+        (p.family ≠ "" ∧ ∃ m ∈ ms, m.uid ≠ p.uid ∧ (∃ o, p.org = some o ∧ m.org = some o) ∧
+          res ∈ definedResources m.refs)) := by
+  obtain ⟨p, h1, _, _, ⟨ms, hms, hx⟩, _⟩ := hj
+  exact ⟨p, ms, h1, hms, renderRoles_ctrl p _ x hx, fun ρ hρ => renderRoles_rules p _ x hx ρ hρ,
+    fun res hres => resourcesOf_origin p ms res hres⟩
+
+/-- **Requests are granted only if covered, in every world**: a justified role means some
+served version of the allow-list role covers every granular sub-rule of every request of the
+served revision (same exclusions as `tree_sound_partial`). -/
+theorem granted_requests_are_covered_interf_partial (a : String) (name : String) (h : Hist) (x : Role)
+    (hj : Justified ⟨some a⟩ name h x) :
+    ∃ p s3 ar, (s3, Req.getRole a) ∈ h ∧ s3.roles.find? (·.name = a) = some ar ∧
+      (NoLiteralStar ar.rules → NoEmptyURL ar.rules → URLRulesNameless ar.rules →
+        ∀ q ∈ p.requests, ∀ sub ∈ breakdown q, sub.InDomain → covers ar.rules sub = true) ∧
+      (∃ s1, (s1, Req.getPR name) ∈ h ∧ s1.prs.find? (·.name = name) = some p) := by
+  obtain ⟨p, h1, _, _, _, hv⟩ := hj
+  simp only [] at hv
+  obtain ⟨s3, ar, h3, hfa, hval⟩ := hv
+  exact ⟨p, s3, ar, h3, hfa,
+    fun a1 a2 a3 => nothing_rejected_means_covered_partial ar.rules p.requests a1 a2 a3 hval, h1⟩
+
+/-- the XRD reconciler in every world: every role write is a role rendered for the live XRD a
+`getXRD` was served (hence `xrd_roles_exact` applies to it); Updates carry a checked version -/
+theorem xrd_writes_justified_by_reads_interf (name : String) (w : World) (s : Store)
+    (pre : Hist) (x : Store × Req) (post : Hist)
+    (h : ownW w 0 (reconcileXRD name) s = pre ++ x :: post) :
+    RoleQ (JustifiedXRD name) pre x.2 := by
+  simpa using ownW_ownOnly _ w 0 _ s [] (reconcileXRD_ownOnly name) pre x post h
+
+/-- the binding reconciler in every world: the only write is THE binding of the live revision
+it was served, to its own system role, with the service accounts of the deployments it was
+served that carry an owner reference with the revision's UID; Updates carry a checked version -/
+theorem binding_writes_justified_by_reads_interf (name : String) (w : World) (s : Store)
+    (pre : Hist) (x : Store × Req) (post : Hist)
+    (h : ownW w 0 (reconcileBinding name) s = pre ++ x :: post) :
+    BindingQ name pre x.2 := by
+  simpa using ownW_ownOnly _ w 0 _ s [] (reconcileBinding_ownOnly name) pre x post h
+
+/-! non-vacuity: a world in which the allow-list is narrowed right before the validator's read
+(call 1) refuses the roles the plain world writes; a world in which another writer takes the
+system role over between the Apply's Get and its Update makes that Update a Conflict -/
+example : ((ownW (World.plain Plan.allOk) 0 (reconcile ⟨some "allow"⟩ "p") (exStore [⟨["get"], ["g"], ["r"], ["n"], []⟩])).filter (·.2.isWrite)).length = 3 := by decide
+example : ((ownW ⟨Plan.allOk, fun k s => if k = 1 then applyEdit s (.setRole ⟨"allow", [], [], none⟩) else s, fun _ s => s, fun _ => none⟩
+    0 (reconcile ⟨some "allow"⟩ "p") (exStore [⟨["get"], ["g"], ["r"], ["n"], []⟩])).filter (·.2.isWrite)).length = 0 := by decide
 
 end Xp.C18
